@@ -1,20 +1,430 @@
+// dverif: static decision of the C01–C20 properties of fiorix/go-diameter (see /verif/DESIGN.md).
+//
+//	dverif check <ID> [--tier quick|thorough] [--repo DIR] [--out DIR]
+//	dverif explain <replay file>
+//	dverif list
 package main
 
 import (
+	"encoding/json"
+	"flag"
 	"fmt"
-	"golang.org/x/tools/go/packages"
-	"golang.org/x/tools/go/ssa"
-	"golang.org/x/tools/go/ssa/ssautil"
-	"golang.org/x/tools/go/callgraph/vta"
-	"golang.org/x/tools/go/callgraph/cha"
-	"golang.org/x/tools/go/cfg"
+	"os"
+	"path/filepath"
+	"runtime"
+	"runtime/debug"
+	"sort"
+	"strconv"
+	"strings"
+	"time"
+
+	"verif/internal/core"
+	"verif/internal/prog"
+	"verif/internal/rules"
 )
 
-var _ = packages.Load
-var _ ssa.Value
-var _ = ssautil.AllPackages
-var _ = vta.CallGraph
-var _ = cha.CallGraph
-var _ = cfg.New
+var thoroughConfigs = []prog.Config{
+	{GOOS: "linux", GOARCH: "amd64"},
+	{GOOS: "linux", GOARCH: "386"},
+	{GOOS: "linux", GOARCH: "arm64"},
+	{GOOS: "darwin", GOARCH: "arm64"},
+	{GOOS: "windows", GOARCH: "amd64"},
+}
 
-func main() { fmt.Println("ok") }
+func main() {
+	if len(os.Args) < 2 {
+		usage()
+	}
+	switch os.Args[1] {
+	case "check":
+		os.Exit(cmdCheck(os.Args[2:]))
+	case "explain":
+		os.Exit(cmdExplain(os.Args[2:]))
+	case "manifest":
+		os.Exit(cmdManifest())
+	case "list":
+		for _, id := range rules.All() {
+			fmt.Println(id, rules.Get(id).Title)
+		}
+	default:
+		usage()
+	}
+}
+
+func usage() {
+	fmt.Fprintln(os.Stderr, "usage: dverif check <ID> [--tier quick|thorough] [--repo DIR] [--out DIR] | explain <replay> | list")
+	os.Exit(2)
+}
+
+func verifDir() string {
+	if d := os.Getenv("VERIF_DIR"); d != "" {
+		return d
+	}
+	exe, err := os.Executable()
+	if err == nil {
+		d := filepath.Dir(filepath.Dir(exe))
+		if _, err := os.Stat(filepath.Join(d, "MANIFEST.json")); err == nil {
+			return d
+		}
+	}
+	wd, _ := os.Getwd()
+	return wd
+}
+
+func cmdCheck(args []string) int {
+	fs := flag.NewFlagSet("check", flag.ExitOnError)
+	tier := fs.String("tier", "", "quick|thorough (default $VERIF_TIER or quick)")
+	repo := fs.String("repo", "/repo", "repository working tree to analyse")
+	out := fs.String("out", "", "evidence directory (default <verif>/evidence)")
+	findings := fs.String("findings", "", "known findings file (default <verif>/known_findings.txt)")
+	quiet := fs.Bool("q", false, "less output")
+	var id string
+	if len(args) > 0 && !strings.HasPrefix(args[0], "-") {
+		id = args[0]
+		args = args[1:]
+	}
+	fs.Parse(args)
+	if id == "" && fs.NArg() > 0 {
+		id = fs.Arg(0)
+	}
+	if *tier == "" {
+		*tier = os.Getenv("VERIF_TIER")
+	}
+	if *tier != "thorough" {
+		*tier = "quick"
+	}
+	vd := verifDir()
+	if *out == "" {
+		*out = filepath.Join(vd, "evidence")
+	}
+	if *findings == "" {
+		*findings = filepath.Join(vd, "known_findings.txt")
+	}
+	rs := rules.Get(id)
+	if rs == nil {
+		fmt.Fprintf(os.Stderr, "unknown property %q\n", id)
+		return 2
+	}
+	seed, _ := strconv.Atoi(os.Getenv("VERIF_SEED"))
+	start := time.Now()
+
+	configs := []prog.Config{{GOOS: "linux", GOARCH: "amd64"}}
+	depth := 3
+	if *tier == "thorough" {
+		configs = thoroughConfigs
+		depth = 6
+	}
+
+	known, err := core.LoadFindings(*findings)
+	if err != nil {
+		fmt.Printf("VIOLATION property=%s replay=- kind=unanalysable %v\n", id, err)
+		return 1
+	}
+
+	var all []core.Obligation
+	var notes []string
+	roles := map[string]string{}
+	analysed := []map[string]any{}
+	fatal := []string{}
+	for _, cfg := range configs {
+		res, info, err := runOne(rs, *repo, cfg, *tier, depth)
+		if err != nil {
+			fatal = append(fatal, fmt.Sprintf("%s: %v", cfg, err))
+			continue
+		}
+		analysed = append(analysed, info)
+		all = append(all, res.Obls...)
+		for _, n := range res.Notes {
+			notes = append(notes, cfg.String()+": "+n)
+		}
+		for k, v := range res.Roles {
+			roles[k] = v
+		}
+		// vacuity guard
+		for rule, min := range rs.MinInstances {
+			if res.Counts[rule] < min {
+				all = append(all, core.Obligation{Rule: rule, Construct: "rule-instances", At: "-", Status: core.Undecided,
+					How:    fmt.Sprintf("rule matched %d constructs, fewer than the %d needed for a non-vacuous verdict (anchor unresolved?)", res.Counts[rule], min),
+					Config: cfg.String(), Nontrivial: true})
+			}
+		}
+		runtime.GC()
+		debug.FreeOSMemory()
+	}
+	core.SortObls(all)
+
+	// verdicts
+	violations := 0
+	knownHit := 0
+	discharged := 0
+	distinct := map[string]bool{}
+	printed := map[string]bool{}
+	if olds, _ := filepath.Glob(filepath.Join(*out, "replay", id+"-*")); olds != nil {
+		for _, o := range olds {
+			os.Remove(o)
+		}
+	}
+	for _, f := range fatal {
+		violations++
+		fmt.Printf("VIOLATION property=%s replay=- kind=unanalysable %s\n", id, f)
+	}
+	for _, o := range all {
+		if o.Status == core.Discharged {
+			discharged++
+			if o.Nontrivial {
+				distinct[o.Rule+"|"+o.Construct] = true
+			}
+			continue
+		}
+		isKnown := false
+		for _, k := range known {
+			if k.Property == id && k.Rule == o.Rule && k.Construct == o.Construct {
+				isKnown = true
+				key := "K|" + k.Rule + "|" + k.Construct
+				if !printed[key] {
+					printed[key] = true
+					fmt.Printf("KNOWN-FINDING: property=%s %s (rule=%s construct=%s at=%s)\n", id, k.Text, o.Rule, o.Construct, o.At)
+				}
+			}
+		}
+		if isKnown {
+			knownHit++
+			continue
+		}
+		violations++
+		rp := core.ReplayPath(*out, id, o)
+		core.WriteReplay(rp, id, rs.Rules[o.Rule], o)
+		key := "V|" + o.Rule + "|" + o.Construct
+		if !printed[key] {
+			printed[key] = true
+			fmt.Printf("VIOLATION property=%s replay=%s rule=%s construct=%s at=%s status=%s config=%s: %s\n", id, rp, o.Rule, o.Construct, o.At, o.Status, o.Config, o.How)
+		}
+	}
+
+	// evidence
+	samples := sampleObls(all, 14)
+	ruleCounts := map[string]int{}
+	for _, o := range all {
+		ruleCounts[o.Rule]++
+	}
+	var ruleList []string
+	for k := range rs.Rules {
+		ruleList = append(ruleList, k+": "+rs.Rules[k])
+	}
+	sort.Strings(ruleList)
+	sort.Strings(notes)
+	ev := &core.Evidence{
+		PropertyID: id, Tier: *tier, Seed: seed, Level: "other",
+		Coverage: map[string]any{
+			"explanation":         rs.Explanation,
+			"obligations":         len(all),
+			"discharged":          discharged,
+			"evaluations":         len(all),
+			"distinct_nontrivial": len(distinct),
+			"rule": "an obligation is one (rule, construct, build configuration) instance extracted from the type-checked SSA of /repo's working tree; " +
+				"distinct = distinct (rule, construct) pairs; non-trivial = the discharge needed a dominance, path, provenance, lock-set or table argument rather than a constant fact",
+			"samples":             samples,
+			"rules":               ruleList,
+			"instances_per_rule":  ruleCounts,
+			"known_findings_hit":  knownHit,
+			"analysed":            analysed,
+			"roles":               roles,
+			"notes":               notes,
+			"exhaustive":          false,
+			"checker_cmd":         "bin/dverif check " + id + " --tier " + *tier,
+			"technique":           rs.Technique,
+			"undecided_is_failure": true,
+		},
+		Assumptions: append([]string{
+			"go/types, go/ssa and the VTA call graph of golang.org/x/tools v0.29.0 are a faithful model of the source",
+			"reflection and fmt-driven String() dispatch are invisible to the call graph; such targets are added to entry sets explicitly",
+		}, rs.Assumptions...),
+		WallS:      time.Since(start).Seconds(),
+		Violations: violations,
+	}
+	if err := core.WriteEvidence(filepath.Join(*out, id+".json"), ev); err != nil {
+		fmt.Printf("VIOLATION property=%s replay=- kind=unanalysable cannot write evidence: %v\n", id, err)
+		return 1
+	}
+	if !*quiet {
+		fmt.Printf("%s [%s] %d obligations, %d discharged, %d distinct non-trivial, %d known findings, %d violations, %.1fs\n",
+			id, *tier, len(all), discharged, len(distinct), knownHit, violations, time.Since(start).Seconds())
+	}
+	if violations > 0 {
+		return 1
+	}
+	return 0
+}
+
+func runOne(rs *rules.RuleSet, repo string, cfg prog.Config, tier string, depth int) (res *core.Result, info map[string]any, err error) {
+	defer func() {
+		if r := recover(); r != nil {
+			err = fmt.Errorf("checker panic: %v\n%s", r, debug.Stack())
+		}
+	}()
+	p, err := prog.Load(repo, cfg)
+	if err != nil {
+		return nil, nil, err
+	}
+	res = core.NewResult(rs.Property, cfg.String())
+	ctx := &rules.Ctx{P: p, R: res, Tier: tier, Depth: depth}
+	rs.Run(ctx)
+	info = map[string]any{
+		"config":           cfg.String(),
+		"module_packages":  len(p.Pkgs),
+		"functions_total":  p.NFuncs,
+		"module_functions": len(p.ModuleFuncs()),
+	}
+	return res, info, nil
+}
+
+func sampleObls(all []core.Obligation, n int) []any {
+	// one sample per rule first, then fill
+	var out []any
+	seen := map[string]bool{}
+	add := func(o core.Obligation) {
+		out = append(out, map[string]any{"rule": o.Rule, "construct": o.Construct, "at": o.At, "status": o.Status, "how": o.How, "config": o.Config})
+	}
+	for _, o := range all {
+		if !seen[o.Rule] && len(out) < n {
+			seen[o.Rule] = true
+			add(o)
+		}
+	}
+	for _, o := range all {
+		if len(out) >= n {
+			break
+		}
+		if o.Status != core.Discharged {
+			add(o)
+		}
+	}
+	if len(out) == 0 {
+		out = append(out, "no obligations")
+	}
+	return out
+}
+
+func cmdManifest() int {
+	vd := verifDir()
+	data, err := os.ReadFile(filepath.Join(vd, "properties.jsonl"))
+	if err != nil {
+		fmt.Fprintln(os.Stderr, err)
+		return 2
+	}
+	env := "GOFLAGS=-mod=mod GOPROXY=off GOSUMDB=off GOTOOLCHAIN=local GOWORK=off"
+	m := map[string]any{
+		"version":   1,
+		"setup_cmd": env + " go build -o bin/dverif ./cmd/dverif",
+		"hooks": map[string]any{
+			"guard":            "verif",
+			"enable":           "no hooks: every check is a static analysis of /repo's working tree (go/packages + go/ssa); nothing in /repo is instrumented, so the guard is unused",
+			"baseline_off_cmd": "./scripts/baseline_off.sh",
+			"source_commits":   []string{},
+			"add_only":         true,
+		},
+		"engines": []any{map[string]any{
+			"name": "dverif", "path": "cmd/dverif", "serves_properties": rules.All(),
+			"kind_free_text": "repository-specific static analyser: go/packages type-checked load of /repo, go/ssa, dominance/path/lock-set/provenance/table rules per property (internal/rules/cNN.go)",
+		}},
+		"notes": "Static analysis only. Every check rebuilds the SSA program from /repo's current working tree on each run; undecided obligations fail. See DESIGN.md.",
+	}
+	var checks []any
+	var na []any
+	for _, line := range strings.Split(string(data), "\n") {
+		if strings.TrimSpace(line) == "" {
+			continue
+		}
+		i := strings.Index(line, `"id": "`)
+		if i < 0 {
+			i = strings.Index(line, `"id":"`)
+		}
+		rest := line[i:]
+		rest = rest[strings.Index(rest, ":")+1:]
+		rest = strings.TrimLeft(rest, " \"")
+		id := rest[:strings.IndexAny(rest, "\"")]
+		rs := rules.Get(id)
+		if rs == nil {
+			reason := naReasons[id]
+			if reason == "" {
+				reason = "rule set not built yet (see DESIGN.md §7c implementation order)"
+			}
+			na = append(na, map[string]any{"property_id": id, "reason": reason})
+			continue
+		}
+		checks = append(checks, map[string]any{
+			"property_id":         id,
+			"quick_cmd":           "./bin/dverif check " + id + " --tier quick",
+			"thorough_cmd":        "./bin/dverif check " + id + " --tier thorough",
+			"evidence_file":       "evidence/" + id + ".json",
+			"replay_cmd_template": "./bin/dverif explain {path}",
+			"engine":              "dverif",
+			"level_claimed": map[string]any{
+				"category":   "other",
+				"text":       rs.Explanation,
+				"design_ref": "DESIGN.md §5 " + id,
+			},
+			"level_note": "Trusted base: go/types + go/ssa (x/tools v0.29.0) model of the source; Go language semantics of defer/recover/go/select; documented contracts of the standard library calls named in the rules. " + strings.Join(rs.Assumptions, "; "),
+			"technique":  "static analysis: " + rs.Technique,
+		})
+	}
+	m["checks"] = checks
+	if na == nil {
+		na = []any{}
+	}
+	m["not_applicable"] = na
+	out, _ := json.MarshalIndent(m, "", " ")
+	if err := os.WriteFile(filepath.Join(vd, "MANIFEST.json"), append(out, '\n'), 0o644); err != nil {
+		fmt.Fprintln(os.Stderr, err)
+		return 2
+	}
+	fmt.Printf("MANIFEST.json: %d checks, %d not applicable\n", len(checks), len(na))
+	return 0
+}
+
+// naReasons: properties (or whole rule sets) withdrawn, with the reason.
+var naReasons = map[string]string{}
+
+func cmdExplain(args []string) int {
+	if len(args) != 1 {
+		usage()
+	}
+	data, err := os.ReadFile(args[0])
+	if err != nil {
+		fmt.Fprintln(os.Stderr, err)
+		return 2
+	}
+	fmt.Print(string(data))
+	// re-run the property's check and show whether the obligation is still reported
+	var propID, rule, construct string
+	for _, l := range strings.Split(string(data), "\n") {
+		switch {
+		case strings.HasPrefix(l, "property: "):
+			propID = strings.TrimPrefix(l, "property: ")
+		case strings.HasPrefix(l, "rule: "):
+			rule = strings.TrimPrefix(l, "rule: ")
+		case strings.HasPrefix(l, "construct: "):
+			construct = strings.TrimPrefix(l, "construct: ")
+		}
+	}
+	rs := rules.Get(propID)
+	if rs == nil {
+		return 2
+	}
+	res, _, err := runOne(rs, "/repo", prog.Config{GOOS: "linux", GOARCH: "amd64"}, "quick", 3)
+	if err != nil {
+		fmt.Println("re-run failed:", err)
+		return 1
+	}
+	for _, o := range res.Obls {
+		if o.Rule == rule && o.Construct == construct {
+			fmt.Printf("current status on /repo: %s — %s (at %s)\n", o.Status, o.How, o.At)
+			if o.Status != core.Discharged {
+				return 1
+			}
+			return 0
+		}
+	}
+	fmt.Println("current status on /repo: obligation no longer exists")
+	return 0
+}
